@@ -132,6 +132,7 @@ func (bc *Blockchain) Synchronize() {
 	defer Log.Info("Synchronization thread stopped")
 
 	var n int = 0
+	var forkWait int = 0
 	for {
 		if bc.IsShuttingDown() {
 			return
@@ -188,6 +189,29 @@ func (bc *Blockchain) Synchronize() {
 						}
 						bc.SyncLastRequestHeight += count
 						go bc.RequestBlock(reqbl, stats)
+					} else if bc.SyncHeight <= stats.TopHeight {
+						// A peer announced a chain that is heavier than ours but not higher: it leaves our chain
+						// somewhere below our tip, so no height above ours will ever be requested. Ask for its
+						// last blocks by height (once every ~2 seconds); what we already have is refused as
+						// duplicate, the rest is added as an alternative chain and reorganized to.
+						if forkWait == 0 {
+							start := uint64(1)
+							if bc.SyncHeight > config.PARALLEL_BLOCKS_DOWNLOAD {
+								start = bc.SyncHeight - config.PARALLEL_BLOCKS_DOWNLOAD + 1
+							}
+							if start <= bc.SyncHeight {
+								reqbl := &packet.PacketBlockRequest{
+									Height: start,
+									Count:  uint8(bc.SyncHeight - start),
+								}
+								go bc.RequestBlock(reqbl, stats)
+							}
+						}
+						if forkWait >= 20 {
+							forkWait = 0
+						} else {
+							forkWait++
+						}
 					}
 				}()
 			})
